@@ -25,12 +25,21 @@ void CMRdbgMsg(int indent, const char* format, ...)
 #else /* !CMR_DEBUG */
 
 static inline
-void CMRdbgMsg(int indent, const char* format, ...)
+void CMRdbgMsgIgnored(int indent, const char* format, ...)
 {
   CMR_UNUSED(indent);
   CMR_UNUSED(format);
 }
-/*#define CMRdbgMsg(...) */
+
+/* The arguments are type-checked but never evaluated: several debug messages call CMRelementString(..., NULL), which
+ * writes to a static buffer shared by all threads. */
+#define CMRdbgMsg(...) \
+  do \
+  { \
+    if (0) \
+      CMRdbgMsgIgnored(__VA_ARGS__); \
+  } \
+  while (0)
 
 #endif /* CMR_DEBUG */
 
